@@ -19,7 +19,7 @@ import traceback
 
 HERE = os.path.dirname(os.path.abspath(__file__))
 
-if os.environ.get("PYTHONHASHSEED") != "0":
+if os.environ.get("PYTHONHASHSEED") != "0" and not os.environ.get("VERIF_KEEP_HASHSEED"):
     os.environ["PYTHONHASHSEED"] = "0"
     os.execv(sys.executable, [sys.executable] + sys.argv)
 
@@ -297,8 +297,19 @@ def main():
             # replay twice more (same process is enough here; fresh-interpreter replays are part of selftest)
             c2, d2 = campaign.load_replay(replay_path)
             r2, v2, _ = campaign.run_case(repo, c2)
-            if v2 is None or r2.digest != doc["expected"]["digest"]:
-                status["harness"].append("replay file %s does not reproduce deterministically" % replay_path)
+            fresh_rc = None
+            if v2 is not None and r2.digest == doc["expected"]["digest"]:
+                # and once in a fresh interpreter under another hash seed: it must fail the same way
+                import subprocess
+
+                q = subprocess.run(
+                    [sys.executable, os.path.abspath(__file__), prop, "--replay", replay_path],
+                    env=dict(os.environ, PYTHONHASHSEED="271828", VERIF_KEEP_HASHSEED="1", VERIF_REPO=repo), capture_output=True, text=True, timeout=900,
+                )
+                fresh_rc = q.returncode
+                fresh_digest_ok = ("digest=%s" % doc["expected"]["digest"][:12]) in q.stdout
+            if v2 is None or r2.digest != doc["expected"]["digest"] or fresh_rc != 1 or not fresh_digest_ok:
+                status["harness"].append("replay file %s does not reproduce deterministically (fresh interpreter rc=%s)" % (replay_path, fresh_rc))
             else:
                 print("minimised to %d records, %d workers, %d decisions (%d forced), %d candidates tried" % (
                     case["wl"]["n"], r2.nprocs, len(case["decisions"]), len(case.get("forced_prefix") or []), shrink_info["tried"]))
